@@ -255,7 +255,31 @@ def e_positional_catalog_stale(low):
     return exp, {SymStr.const(M): [old1, old2]}, None
 
 
+def e_star_chain(low):
+    """wildcards chained through a table whose source is unknown to the provider: the wildcard lineage runs end to end"""
+    return Expect(sources=[A], targets=[W], intermediates=[M], pairs=[(Cc(A, "*"), Cc(W, "*"))])
+
+
+def e_star_chain3(low):
+    return Expect(sources=[A], targets=[W], intermediates=[M, "s.m2"], pairs=[(Cc(A, "*"), Cc(W, "*"))])
+
+
+def e_star_chain_src(low):
+    e = e_star_chain(low)
+    e.sources = [A, "s.other"]
+    return e
+
+
+def e_star_chain3_src(low):
+    e = e_star_chain3(low)
+    e.sources = [A, "s.other"]
+    return e
+
+
 SESSION = {
+    "star_chain3_unknown_source": (["INSERT INTO s.m SELECT * FROM s.ta", "CREATE TABLE s.m2 AS SELECT * FROM s.m", "INSERT INTO s.w SELECT * FROM s.m2",
+                                    "SELECT zqk1 FROM s.other"], e_star_chain3_src),
+    "star_chain_unknown_source": (["CREATE TABLE s.m AS SELECT * FROM s.ta", "INSERT INTO s.w SELECT * FROM s.m", "SELECT zqk1 FROM s.other"], e_star_chain_src),
     "star_from_created_stale_catalog": (["CREATE TABLE s.m AS SELECT zqk1, zqk2 FROM s.ta", "INSERT INTO s.w SELECT * FROM s.m"], e_star_catalog_stale),
     "positional_insert_stale_catalog": (["CREATE TABLE s.m AS SELECT zqk1, zqk2 FROM s.ta", "INSERT INTO s.m SELECT ca, cb FROM s.tb"], e_positional_catalog_stale),
     "two_unresolved_same_name": (["INSERT INTO s.w SELECT zqk1 FROM s.ta AS a JOIN s.tb AS b ON a.id = b.id",
